@@ -77,12 +77,64 @@ def scan_fn(ctx):
     from engine.inliner import scalarise_tuple_records, propagate_tail_copies
     f = ctx.fn(SCAN)
     node, done = scalarise_tuple_records(f.node)
-    if not done:
-        return f
-    node = propagate_tail_copies(node)
+    if done:
+        node = propagate_tail_copies(node)
+    else:
+        node = _copy.deepcopy(f.node)
+    node = _normalise_tail(node)
     g = _copy.copy(f)
     g.node = node
     return g
+
+
+def _normalise_tail(node):
+    """after the scan loops: call-free single assignments to plain names (copies out of the record, `done = p >= n - 1`) are read
+    through and dropped; a final `return (a if c else b, d if c else e, ..)` becomes `if c: x = a; y = d else: x = b; y = e; return (x, y, ..)`"""
+    import copy as _copy
+    top = node.body
+    last_loop = max([i for i, st in enumerate(top) if isinstance(st, (ast.For, ast.While))], default=-1)
+    if last_loop < 0:
+        return node
+    head, tail = top[:last_loop + 1], top[last_loop + 1:]
+    stored_later = {}
+    for st in tail:
+        for x in ast.walk(st):
+            if isinstance(x, ast.Name) and isinstance(x.ctx, ast.Store):
+                stored_later[x.id] = stored_later.get(x.id, 0) + 1
+    env, out = {}, []
+    for st in tail:
+        if isinstance(st, ast.Assign) and len(st.targets) == 1 and isinstance(st.targets[0], ast.Name) and stored_later.get(st.targets[0].id) == 1 \
+                and not any(isinstance(x, (ast.Call, ast.Await, ast.Yield, ast.NamedExpr)) for x in ast.walk(st.value)):
+            env[st.targets[0].id] = inline(st.value, env)
+            continue
+        if env:
+            st = _copy.deepcopy(st)
+            for fld, val in list(ast.iter_fields(st)):
+                if isinstance(val, ast.expr):
+                    setattr(st, fld, inline(val, env))
+            for sub in ast.walk(st):
+                if sub is st:
+                    continue
+                for fld, val in list(ast.iter_fields(sub)):
+                    if isinstance(val, ast.expr) and isinstance(sub, ast.stmt):
+                        setattr(sub, fld, inline(val, env))
+        out.append(st)
+    tail = out
+    if tail and isinstance(tail[-1], ast.Return) and isinstance(tail[-1].value, ast.Tuple) and len(tail[-1].value.elts) >= 2:
+        r = tail[-1]
+        a, b = r.value.elts[0], r.value.elts[1]
+        if isinstance(a, ast.IfExp) and isinstance(b, ast.IfExp) and U(a.test) == U(b.test):
+            n1, n2 = "next_iter_index__n", "next_plate_index__n"
+            mk = lambda n_, v: ast.Assign(targets=[ast.Name(id=n_, ctx=ast.Store())], value=v, lineno=r.lineno, col_offset=0)
+            iff = ast.If(test=a.test, body=[mk(n1, a.body), mk(n2, b.body)], orelse=[mk(n1, a.orelse), mk(n2, b.orelse)], lineno=r.lineno, col_offset=0)
+            r2_ = ast.Return(value=ast.Tuple(elts=[ast.Name(id=n1, ctx=ast.Load()), ast.Name(id=n2, ctx=ast.Load())] + list(r.value.elts[2:]), ctx=ast.Load()), lineno=r.lineno, col_offset=0)
+            tail = tail[:-1] + [iff, r2_]
+    node = _copy.copy(node)
+    node.body = head + tail
+    ast.fix_missing_locations(node)
+    from engine.normalize import renumber
+    renumber(node)
+    return node
 
 
 def r2(ctx):
@@ -105,6 +157,9 @@ def r2(ctx):
             for x in n.body + n.orelse:
                 if isinstance(x, ast.Assign):
                     arith_names |= names_in(x.value)
+    for e in final.value.elts[:2]:
+        if isinstance(e, ast.IfExp) or isinstance(e, ast.BinOp):
+            arith_names |= names_in(e)
     record = sorted((arith_names - {"batch_size"}) | {meta})
     ctx.need(len(record) >= 3, f"{f.site()}: record variables not identified ({record})")
     loops = [n for n in walk_own(f.node) if isinstance(n, ast.For)]
